@@ -250,6 +250,8 @@ pub fn stream(kind: Kind, plan: &Plan, seed: u64, f: &mut dyn FnMut(&[u8], Tag))
                             if ph == 0 && l <= 48 {
                                 // obs-text-rich neighbourhood (carry / borrow between adjacent bytes of a word)
                                 f(&gen::g3_message_v(kind, field, l, q, v, ph, false, 1), Tag::G3);
+                                // plain-letter neighbourhood ("clean ASCII word" fast paths)
+                                f(&gen::g3_message_v(kind, field, l, q, v, ph, l % 2 == 1, 2), Tag::G3);
                             }
                         }
                     }
